@@ -32,6 +32,8 @@ type resp struct {
 	ID         int      `json:"id"`
 	Features   []string `json:"features"`
 	Violations []string `json:"violations"`
+	Exports    []string `json:"exports"`     // names the code exports (keys of the parsed NamedExports)
+	ExportStar bool     `json:"export_star"` // the code has an `export * from` statement
 	Error      string   `json:"error,omitempty"`
 }
 
@@ -305,6 +307,12 @@ func main() {
 				res.Error = "parse error: " + strings.Join(msgs, " | ")
 				return
 			}
+			res.Exports = []string{}
+			for name := range tree.NamedExports {
+				res.Exports = append(res.Exports, name)
+			}
+			sort.Strings(res.Exports)
+			res.ExportStar = len(tree.ExportStarImportRecords) > 0
 			s := &scanner{found: map[compat.JSFeature]bool{}}
 			for i := range tree.Parts {
 				s.walk(reflect.ValueOf(tree.Parts[i].Stmts), 0)
